@@ -36,7 +36,7 @@ def alphabet():
     ]
 
 
-OPS = ["upd", "addb-doc", "addb-noid", "addb-dup", "addb-dup-string", "addb-bundle", "flat"]
+OPS = ["upd", "addb-doc", "addb-noid", "addb-dup", "addb-dup-string", "addb-bundle", "addb-bundle-as", "addb-unresolvable", "flat"]
 
 
 def to_model(doc):
@@ -149,6 +149,20 @@ class C09(spec.Spec):
                     else:
                         M[1][ident.uri] = list(O[0])
                     d.add_bundle(sb)
+                elif op == "addb-bundle-as":
+                    # a bundle that already calls itself X, attached under the requested identifier Y
+                    own = QualifiedName(Namespace("bn", NB[0]), "own-name")
+                    ident = QualifiedName(Namespace("bn", NB[0]), "as")
+                    sb = ProvBundle(records=o.get_records(), identifier=own)
+                    if ident.uri in M[1]:
+                        expect_refusal = True
+                    else:
+                        M[1][ident.uri] = list(O[0])
+                    d.add_bundle(sb, ident)
+                elif op == "addb-unresolvable":
+                    # the requested identifier denotes nothing (its prefix is declared nowhere): no identifier
+                    expect_refusal = True
+                    d.add_bundle(ProvBundle(records=o.get_records()), "nosuchprefix9:b")
                 elif op == "flat":
                     M = [M[0] + [r for rs in M[1].values() for r in rs], {}]
                     d = d.flattened()
